@@ -75,8 +75,9 @@ def c11(rep, tier):
                           'once per iteration; at most one rewrite per iteration', floor=5)
     cv = counter_of(mm.budget)
     c = strip_casts(mm.budget.get('c')) if mm.budget.get('c') else None
-    okc = cv is not None and c is not None and c.get('k') == 'bin' and c['op'] == '<' and strip_casts(c['l']).get('d') == cv['d'] and \
-        strip_casts(c['r']).get('d') == mm.passes['d']
+    starts0 = cv is not None and cv.get('init') is not None and strip_casts(cv['init']).get('v') == 0
+    okc = cv is not None and c is not None and c.get('k') == 'bin' and (c['op'] == '<' or (c['op'] == '!=' and starts0)) and \
+        strip_casts(c['l']).get('d') == cv['d'] and strip_casts(c['r']).get('d') == mm.passes['d']
     A.check(okc, 'apply_macros: loop condition', '%s < %s' % (cv['name'] if cv else '?', mm.passes['name']),
             'budget loop condition is %s: more than `passes` rewrites are possible' % (show(c) if c else 'missing'), W(am, mm.budget, mm.facts))
     inc = strip_casts(mm.budget.get('inc')) if mm.budget.get('inc') else None
